@@ -486,6 +486,7 @@ func checkC04(c *Ctx) {
 	runFT(c, "FT", map[string]bool{"read": true})
 	runTVDriver(c, "TV-driver")
 	footerRejects(c, footerPathFns(c))
+	laThriftLimits(c, "LA-thrift")
 	runFG(c, true)
 	r.floor("FG-over/header-consumers", 1, "RequiredField.DoRead, OptionalField.DoRead")
 	laFooterMeta(c, "LA-footer", map[string]bool{"rows": true, "seek": true})
@@ -504,6 +505,7 @@ func checkC16(c *Ctx) {
 	runEP(u, r, "EP/introspection", ops, fnSet(reach))
 	r.floor("EP/introspection/primitive", 4, "getMetaDataSize x2, ReadMetaData x2 (+constructor), PageHeadersAtOffset Seek x2, PageHeader")
 	laWalk(c, "LA-walk")
+	laThriftLimits(c, "LA-thrift")
 	footerRejects(c, footerPathFns(c))
 	laFooterMeta(c, "LA-footer", map[string]bool{"seek": true})
 	// what the calls report must not depend on how the source fragments its reads either (a footer longer than one read)
@@ -531,12 +533,14 @@ func laWalk(c *Ctx, rule string) {
 		res := f.Signature.Results()
 		return res.Len() >= 1 && strings.HasSuffix(res.At(0).Type().String(), "schema.PageHeader")
 	}
+	// (a header is read wherever the thrift decoder of PageHeader is called, by PageHeader() or by another helper)
+	thr := thriftHeaderRead(u)
 	reachesHdr := func(f *ssa.Function) bool {
-		if f == hdrFn {
+		if f == hdrFn || (thr != nil && callsDirectly(f, thr)) {
 			return true
 		}
 		for g := range u.reach([]*ssa.Function{f}) {
-			if g == hdrFn {
+			if g == hdrFn || (thr != nil && callsDirectly(g, thr)) {
 				return true
 			}
 		}
